@@ -130,6 +130,8 @@ def gen_free(rng):
                                     pl(outs), pl(pars), pl(tags))
     if rng.random() < 0.1:
         line += " " + hx("prefix cmd")
+    elif rng.random() < 0.3:
+        line += " - G"          # the process is a Go-function process (CustomExecute set): its command is formed all the same
     return line, pat
 
 
